@@ -130,17 +130,21 @@ def converter_fallback(fn):
 
 class ApplyUnitsTask(Task):
     """apply_preferred_units on a three-field message: the middle field has the quantity under test."""
-    def __init__(self, quantity, pref):
+    def __init__(self, quantity, pref, layout='first'):
         self.q = quantity
         self.pref = pref
-        self.name = f'C18:apply_preferred_units[{quantity},{pref!r}]'
+        self.layout = layout      # 'first': (VOLUME, q, no quantity) ; 'last': (q, VOLUME, another convertible quantity with an unrecognised preference, no quantity)
+        self.name = f'C18:apply_preferred_units[{quantity},{pref!r}' + (',then-unconverted-fields' if layout == 'last' else '') + ']'
 
     def run(self, tier):
         out = {'results': [], 'functions': [], 'notes': [], 'bounded': []}
         r = repo()
         info = r.func('message.NMEA2000Message.apply_preferred_units')
         out['functions'].append(info.describe())
-        base = f'C18/message.NMEA2000Message.apply_preferred_units[{self.q},{self.pref!r}]'
+        base = f'C18/message.NMEA2000Message.apply_preferred_units[{self.q},{self.pref!r}' + (',then-unconverted-fields' if self.layout == 'last' else '') + ']'
+        other = 'PRESSURE' if self.q != 'PRESSURE' else 'TEMPERATURE'
+        layout = ('VOLUME', self.q, None) if self.layout == 'first' else (self.q, 'VOLUME', other, None)
+        ti = layout.index(self.q)
         calls = []
 
         def conv_contract(fn):
@@ -154,7 +158,7 @@ class ApplyUnitsTask(Task):
             g = ex.ghost
             calls.clear()
             fields = []
-            for i, q in enumerate(('VOLUME', self.q, None)):
+            for i, q in enumerate(layout):
                 attrs = {'id': f'f{i}', 'name': f'n{i}', 'description': None, 'unit_of_measurement': Opaque(f'unit{i}'), 'value': Opaque(f'value{i}'), 'raw_value': Opaque(f'raw{i}'),
                          'physical_quantities': EnumVal('PhysicalQuantities', q) if q else None, 'type': Opaque('type'), 'part_of_primary_key': False}
                 fields.append(Obj(r.cls('message', 'NMEA2000Field'), attrs))
@@ -167,6 +171,8 @@ class ApplyUnitsTask(Task):
             if self.pref is not None:
                 prefs[EnumVal('PhysicalQuantities', self.q if self.q in ('TEMPERATURE', 'PRESSURE', 'ANGLE', 'SPEED') else 'TEMPERATURE')] = self.pref
             prefs[EnumVal('PhysicalQuantities', 'VOLUME')] = 'gal'       # a quantity without conversions
+            if self.layout == 'last':
+                prefs[EnumVal('PhysicalQuantities', other)] = 'zzz'     # a convertible quantity with an unrecognised preference
             g['prefs'] = prefs
             return ex._run_body(info, [prefs], {}, msg)
         try:
@@ -187,7 +193,7 @@ class ApplyUnitsTask(Task):
             exp = TABLE.get((self.q, self.pref))
             for i, (f, o) in enumerate(zip(fields, orig)):
                 changed = {k for k in set(f.attrs) | set(o) if f.attrs.get(k) is not o.get(k)}
-                if i == 1 and exp is not None:
+                if i == ti and exp is not None:
                     add('only-value-and-unit-rewritten', changed <= {'value', 'unit_of_measurement'}, f'changed: {sorted(changed)}')
                     add('unit-label-set', f.attrs['unit_of_measurement'] == exp[0], f'unit {f.attrs["unit_of_measurement"]!r}, expected {exp[0]!r}')
                     mine = [c for c in calls if c[1] is o['value']]
@@ -196,14 +202,14 @@ class ApplyUnitsTask(Task):
                 else:
                     add(f'field{i}-untouched', not changed, f'changed: {sorted(changed)}')
             add('message-attributes-untouched', all(g['msg'].attrs.get(k) is v for k, v in g['msg_orig'].items()) and set(g['msg'].attrs) == set(g['msg_orig']))
-            add('preferences-not-modified', len(g['prefs']) == (2 if self.pref is not None else 1))
+            add('preferences-not-modified', len(g['prefs']) == (2 if self.pref is not None else 1) + (1 if self.layout == 'last' else 0))
         for ob in obs:
             res = discharge(ob, budget(tier))
             dct = result_dict(res, with_size=False)
             dct['function'] = info.fullname
             if res.status == 'refuted':
                 dct['reason'] = ob.meta.get('note', '')
-                dct['replay'] = replay_units(self.q, self.pref)
+                dct['replay'] = replay_units(self.q, self.pref, self.layout)
                 if not dct['replay'].get('confirmed'):
                     h = history_units()
                     if h.get('confirmed'):
@@ -212,30 +218,37 @@ class ApplyUnitsTask(Task):
         return out
 
 
-def replay_units(q, pref):
+def replay_units(q, pref, layout='first'):
     from nmea2000.message import NMEA2000Message, NMEA2000Field
     from nmea2000.consts import PhysicalQuantities as PQ
     qq = getattr(PQ, q) if q else None
     x = 300.0
-    fs = [NMEA2000Field('a', value=5.0, raw_value=5.0, unit_of_measurement='L', physical_quantities=PQ.VOLUME),
-          NMEA2000Field('b', value=x, raw_value=x, unit_of_measurement='u', physical_quantities=qq), NMEA2000Field('c', value=None, raw_value=None)]
+    other = PQ.PRESSURE if q != 'PRESSURE' else PQ.TEMPERATURE
+    vol = NMEA2000Field('a', value=5.0, raw_value=5.0, unit_of_measurement='L', physical_quantities=PQ.VOLUME)
+    tested = NMEA2000Field('b', value=x, raw_value=x, unit_of_measurement='u', physical_quantities=qq)
+    plain = NMEA2000Field('c', value=None, raw_value=None)
+    oth = NMEA2000Field('d', value=7.5, raw_value=7.5, unit_of_measurement='w', physical_quantities=other)
+    fs = [vol, tested, plain] if layout == 'first' else [tested, vol, oth, plain]
     m = NMEA2000Message(PGN=1, id='x', fields=fs)
     prefs = {PQ.VOLUME: 'gal'}
+    if layout == 'last':
+        prefs[other] = 'zzz'
     if pref is not None and qq is not None:
         prefs[qq if q in ('TEMPERATURE', 'PRESSURE', 'ANGLE', 'SPEED') else PQ.TEMPERATURE] = pref
     m.apply_preferred_units(prefs)
     exp = TABLE.get((q, pref))
     bad = []
-    if (fs[0].value, fs[0].unit_of_measurement, fs[0].raw_value) != (5.0, 'L', 5.0) or fs[2].value is not None:
-        bad.append('another field changed')
+    if (vol.value, vol.unit_of_measurement, vol.raw_value) != (5.0, 'L', 5.0) or plain.value is not None or (oth.value, oth.unit_of_measurement, oth.raw_value) != (7.5, 'w', 7.5):
+        bad.append(f'another field changed: {vol.value} {vol.unit_of_measurement}; {oth.value} {oth.unit_of_measurement}; {plain.value}')
     if exp is None:
-        if (fs[1].value, fs[1].unit_of_measurement) != (x, 'u'):
-            bad.append(f'unrecognised preference changed the field to {fs[1].value} {fs[1].unit_of_measurement}')
+        if (tested.value, tested.unit_of_measurement) != (x, 'u'):
+            bad.append(f'unrecognised preference changed the field to {tested.value} {tested.unit_of_measurement}')
     else:
         want = native_exact(exp[1], x)
-        if fs[1].unit_of_measurement != exp[0] or fs[1].raw_value != x or abs(Fraction(fs[1].value) - want) > CONV[exp[1]][1] + Fraction(1, 10 ** 4):
-            bad.append(f'{fs[1].value} {fs[1].unit_of_measurement} (raw {fs[1].raw_value}), expected about {float(want)} {exp[0]}')
-    return {'confirmed': bool(bad), 'inputs': {'quantity': q, 'preference': pref, 'value': x}, 'observed': bad, 'how': 'NMEA2000Message.apply_preferred_units on the working tree'}
+        if tested.unit_of_measurement != exp[0] or tested.raw_value != x or abs(Fraction(tested.value) - want) > CONV[exp[1]][1] + Fraction(1, 10 ** 4):
+            bad.append(f'{tested.value} {tested.unit_of_measurement} (raw {tested.raw_value}), expected about {float(want)} {exp[0]}')
+    return {'confirmed': bool(bad), 'inputs': {'quantity': q, 'preference': pref, 'value': x, 'field order': [f.id for f in fs], 'preferences': {k.name: v for k, v in prefs.items()}}, 'observed': bad,
+            'how': 'NMEA2000Message.apply_preferred_units on the working tree'}
 
 
 _HIST = {}
@@ -310,6 +323,9 @@ def main(tier):
     for q in ('TEMPERATURE', 'PRESSURE', 'ANGLE', 'SPEED', 'LENGTH', None):
         for pref in ('c', 'f', 'bar', 'psi', 'deg', 'kts', 'xyz', None):
             run.add(ApplyUnitsTask(q, pref))
+            if q is not None:
+                # the converted field comes first and fields that must stay as they are follow it (nothing carries over)
+                run.add(ApplyUnitsTask(q, pref, layout='last'))
     from contracts.decoder_c import init_tasks, InitPrefsTask
     run.add(InitPrefsTask('C18'))
     run.trust('float model S; round(x, nd) by specification: a double within half a unit of 10^-nd of x (ties unspecified)', 'math.degrees(x) = fl(x * fl(180/pi))', 'z3 5.1')
